@@ -140,6 +140,31 @@ fn gb_bytes(pointer: u32) -> [u8; 4] {
 }
 
 fn targeted(out: &mut Out) {
+    // two-byte encodings: complete rows (lead x all 256 second bytes) at the special regions of each index
+    // (Big5: 0x87/0x88 with the four two-code-point pointers 1133, 1135, 1164, 1166, first/last rows, astral rows;
+    // Shift_JIS: hiragana/katakana fast tracks, NEC/IBM extensions, end-user-defined range; EUC-KR: extension and
+    // KS X 1001 rows; EUC-JP: kana rows, extension rows; gb18030: GBK/GB2312 region corners)
+    let rows: [(&'static Encoding, &[u8]); 6] = [
+        (BIG5, &[0x81, 0x87, 0x88, 0x89, 0xA1, 0xA3, 0xC6, 0xC8, 0xF9, 0xFE]),
+        (SHIFT_JIS, &[0x81, 0x82, 0x83, 0x84, 0x87, 0x88, 0x98, 0x9F, 0xE0, 0xEA, 0xED, 0xEE, 0xF0, 0xF9, 0xFA, 0xFC]),
+        (EUC_KR, &[0x81, 0xA0, 0xA1, 0xA2, 0xA4, 0xA5, 0xA7, 0xAC, 0xB0, 0xC6, 0xC7, 0xC8, 0xCA, 0xFD, 0xFE]),
+        (EUC_JP, &[0x8E, 0xA1, 0xA2, 0xA4, 0xA5, 0xA8, 0xAD, 0xB0, 0xCF, 0xF4, 0xF9, 0xFC, 0xFE]),
+        (GB18030, &[0x81, 0xA0, 0xA1, 0xA2, 0xA6, 0xA8, 0xA9, 0xAA, 0xB0, 0xD7, 0xF7, 0xF8, 0xFD, 0xFE]),
+        (GBK, &[0x81, 0xA2, 0xA8, 0xFE]),
+    ];
+    for (e, leads) in rows.iter() {
+        for &l in leads.iter() {
+            for b in 0..=255u8 {
+                emit(out, e, &[l, b]);
+            }
+        }
+    }
+    // ISO-2022-JP: complete rows in the two-byte state
+    for &l in &[0x21u8, 0x22, 0x24, 0x25, 0x28, 0x2D, 0x30, 0x4F, 0x74, 0x79, 0x7C, 0x7E] {
+        for b in 0..=255u8 {
+            emit(out, ISO_2022_JP, &[0x1B, 0x24, 0x42, l, b]);
+        }
+    }
     // EUC-JP: three-byte forms with the 0x8F lead, each truncated / followed by a byte of every class
     for &l in &[0xA1u8, 0xA2, 0xA6, 0xA7, 0xA9, 0xAA, 0xAB, 0xB0, 0xC4, 0xED, 0xEE, 0xF3, 0xF4, 0xFE, 0xA0, 0x8F, 0x41] {
         for &t in &CLASSES {
